@@ -422,6 +422,53 @@ def bounded_sequences(tier, seed):
     check('sum((1, 2, xs:double("NaN")))', float('nan'))
     check('max((1, xs:double("NaN"), 3))', float('nan'))
     check('distinct-values((xs:double("NaN"), xs:double("NaN"), 1))', [float('nan'), 1]) if False else None
+    # fn:sum on one item and on items that are not numbers (F&O 14.4.5: untypedAtomic is cast to xs:double, anything but numbers and durations is FORG0006)
+    for expr, want in (("sum(xs:untypedAtomic('3')) instance of xs:double", True), ("sum(xs:untypedAtomic('3'))", 3.0), ("sum((xs:untypedAtomic('3'), 1)) instance of xs:double", True),
+                       ("sum('a')", ('raise', 'FORG0006')), ("sum(xs:anyURI('a'))", ('raise', 'FORG0006')), ("sum(xs:duration('P1Y'))", ('raise', 'FORG0006')),
+                       ("sum(true())", ('raise', 'FORG0006')), ("sum((true(), 1))", ('raise', 'FORG0006')), ("sum(xs:date('2020-01-01'))", ('raise', 'FORG0006')),
+                       ("sum((xs:QName('a'), 1))", ('raise', 'FORG0006')), ("sum(xs:untypedAtomic('abc'))", ('raise', 'FORG0001')), ("sum((xs:untypedAtomic('abc'), 1))", ('raise', 'FORG0001')),
+                       ("sum(xs:dayTimeDuration('P1D')) instance of xs:dayTimeDuration", True), ("sum((xs:dayTimeDuration('P1D'), xs:dayTimeDuration('PT12H'))) eq xs:dayTimeDuration('P1DT12H')", True),
+                       ("sum((xs:dayTimeDuration('P1D'), 1))", ('raise', 'FORG0006')), ("sum(5) instance of xs:integer", True), ("sum(5.0) instance of xs:decimal", True),
+                       ("sum(xs:float('1.5')) instance of xs:float", True), ("sum((), 'z')", 'z'), ("sum((), ())", []), ("sum(1, 'z')", 1)):
+        seen.add(('sum types', expr[:30]))
+        check(expr, want)
+    # insert-before / remove with positions outside 1..n, as list model
+    for s in ([], [10], [10, 20, 30]):
+        for p in range(-5, 7):
+            seen.add(('insert-before position', len(s), p < 1, p > len(s)))
+            q = min(max(p - 1, 0), len(s))
+            check(f'insert-before($s, {p}, (7, 8))', s[:q] + [7, 8] + s[q:], s=s)
+            check(f'remove($s, {p})', [x for k, x in enumerate(s, 1) if k != p], s=s)
+    # a numeric predicate of any numeric type selects by position (also xs:decimal values that are computed)
+    for pred, want in (('2.0', [20]), ('4 div 2', [20]), ('last() div 2', [20]), ('avg((1, 3))', [20]), ('xs:decimal(3)', [30]), ('1.5', []), ('0.0', []), ('xs:float(2)', [20]),
+                       ('2e0', [20]), ('xs:decimal(4)', [40]), ('5.0', []), ('-1.0', []), ('last() - 1.0', [30])):
+        seen.add(('decimal predicate', pred))
+        check(f'(10, 20, 30, 40)[{pred}]', want)
+        check(f'$s[{pred}]', want, s=[10, 20, 30, 40])
+    # quantified expressions: the test is evaluated with the focus of the quantified expression, whatever the domains are (atomic, node, several variables)
+    import xml.etree.ElementTree as _ET
+    from elementpath import XPathContext as _Ctx
+    doc = _ET.XML('<r><a>1</a><a>2</a><a>3</a><b>2</b></r>')
+    for expr, want in (('every $x in (1, 2, 3) satisfies a[. = $x]', True), ('some $x in (5, 2) satisfies a[. = $x]', True), ('every $x in (1, 4) satisfies a[. = $x]', False),
+                       ('every $y in a satisfies a[. = $y]', True), ('some $x in (1, 2), $y in a satisfies name(.) = "a"', False), ('some $x in (1, 2), $y in a satisfies name(.) = "r"', True),
+                       ('every $x in (1, 2), $y in a satisfies exists(a[. = $y])', True), ('every $x in (1, 2), $y in (2, 3) satisfies a[. = $x + 1][. = $y or true()]', True),
+                       ('every $x in a, $y in b satisfies count(a) = 3 and count(b) = 1', True), ('some $x in a satisfies b[. = $x] and name(.) = "r"', True),
+                       ('for $y in a return name(.)', ['r', 'r', 'r']), ('(every $x in a satisfies a[. = $x]) = not(some $x in a satisfies not(a[. = $x]))', True)):
+        for version in ('2.0', '3.1'):
+            n += 1
+            seen.add(('quantifier focus', expr[:24]))
+            got = run_native(lambda: PARSERS[version]().parse(expr).evaluate(_Ctx(root=doc, item=doc)))
+            g = got[1] if got[0] == 'return' else got
+            if g != want:
+                fails.append({'key': f'quantifier focus {expr}', 'what': f'XPath {version}: `{expr}` on <r><a>1</a><a>2</a><a>3</a><b>2</b></r> with r as context item = {got!r}; '
+                              f'the test is evaluated with the focus of the quantified expression: {want!r}'})
+    # index-of / distinct-values use 'eq': pairs without an 'eq' (boolean/number, untypedAtomic/number) never match
+    for expr, want in (("index-of((xs:untypedAtomic('1'), 1), 1)", [2]), ("index-of((1, true()), true())", [2]), ("index-of((1, true()), 1)", [1]), ("index-of((0, false(), 0.0), false())", [2]),
+                       ("count(distinct-values((xs:untypedAtomic('1'), 1)))", 2), ("count(distinct-values((1, true())))", 2), ("count(distinct-values((0, false())))", 2),
+                       ("count(distinct-values((true(), 1.0, 1e0)))", 2), ("count(distinct-values((1, true(), 'a', xs:date('2000-01-01'))))", 4), ("index-of(('a', xs:untypedAtomic('a'), xs:anyURI('a')), 'a')", [1, 2, 3]),
+                       ("count(distinct-values(('a', xs:untypedAtomic('a'))))", 1), ("index-of((1, 1.0, 2), 1e0)", [1, 2])):
+        seen.add(('eq pairs', expr[:30]))
+        check(expr, want)
     check('zero-or-one((1, 2))', ('raise', 'FORG0003'))
     check('one-or-more(())', ('raise', 'FORG0004'))
     check('exactly-one(())', ('raise', 'FORG0005'))
